@@ -44,7 +44,7 @@ fn parse_args() -> Args {
     let mut it = std::env::args().skip(1);
     while let Some(a) = it.next() {
         if let Some(k) = a.strip_prefix("--") {
-            if ["thorough", "no-confirm", "keep-going"].contains(&k) {
+            if ["thorough", "no-confirm", "keep-going", "no-evidence"].contains(&k) {
                 opts.insert(k.to_owned(), "1".to_owned());
             } else {
                 opts.insert(k.to_owned(), it.next().unwrap_or_default());
@@ -537,7 +537,9 @@ fn cmd_check(a: &Args) -> i32 {
     }
     props::c04::cleanup_scratch();
     let wall = t0.elapsed().as_secs_f64();
-    meta::write_evidence(&prop, &tier, seed, &stats, evaluations, wall, new_violations, per_config, extra, &known, &found);
+    if !a.opts.contains_key("no-evidence") {
+        meta::write_evidence(&prop, &tier, seed, &stats, evaluations, wall, new_violations, per_config, extra, &known, &found);
+    }
     println!(
         "property={} tier={} evaluations={} distinct_nontrivial={} new_violations={} wall={:.1}s",
         prop,
